@@ -4,6 +4,8 @@ pid = sys.argv[1]; variant = sys.argv[2] if len(sys.argv) > 2 else "a"
 p = [json.loads(l) for l in open('/verif/properties.jsonl') if json.loads(l)['id'] == pid][0]
 wt = "/tmp/seed-%s%s" % (pid, variant)
 hint = {"a": "Prefer a change that needs an unusual input class or a particular configuration to manifest.",
+        "c": "Prefer a change in code that only a less common entry point reaches - another overload, data/index type or block-size instantiation, a second backend/route, an options flag, a rarely used clone/convert/assembly mode - while the common path stays intact.",
+        "d": "Prefer a change that only shows at a boundary of the input domain: sizes 0 or 1, empty rows/sets/patches, a single cell or process, first/last element, exactly equal values, or the largest admissible degree/level.",
         "b": "Prefer a change that needs a multi-step sequence of operations, two cooperating sites that each look fine alone, or a particular interleaving/fault point to manifest."}[variant]
 print(f"""You are a careful C++ engineer playing the role of a realistic *bug seeder* for the finite-element library feat3 (C++17). Your own scratch git worktree of the library is at {wt} (already created; work ONLY inside it and inside {wt}-out; do NOT read or touch /verif, /repo or other /tmp/seed-* directories).
 
